@@ -191,6 +191,8 @@ class Lib:
                             return Bound(raw, selfv)
                         return raw
                 I.fail("AttributeError", f"super().{name}", node)
+            if obj.kind == "match":
+                raise Unsupported(f"re.Match.{name} on a symbolic subject string")
             if obj.kind in self.method_table and name in self.method_table[obj.kind]:
                 fn = self.method_table[obj.kind][name]
                 return LibFn(lambda I2, a, k, n: fn(I2, obj, a, k, n), f"{obj.kind}.{name}")
